@@ -3,14 +3,16 @@ package main
 // Stage `acctrace` — "deactivated accounts can do nothing" under overlapping account updates.
 //
 // GetOrUpdateAccount works on the *acme.Account that lookupJWK loaded (db.GetAccount) and hands it
-// to db.UpdateAccount, which re-reads the record, copies Contact AND Status from the handler's copy
-// onto the fresh record and compare-and-swaps from the record it just read. A contact update that
-// loaded the account before a deactivation was stored therefore writes Status=valid back.
+// to db.UpdateAccount, which re-reads the record and copies Contact AND Status from the handler's
+// copy onto the fresh record. Before commit 48b7457 a contact update that had loaded the account
+// before a deactivation was stored wrote Status=valid back (schedules ABAB, BAAB: both answered 200,
+// account valid again); since then UpdateAccount refuses (401) when the stored record is deactivated
+// and the incoming status is not.
 //
 // Two requests of one account, A = {"status":"deactivated"}, B = {"contact":[…]}, each two
 // store-visible steps [GetAccount (lookupJWK), UpdateAccount], interleaved by a parking acme.DB
-// wrapper; all 6 interleavings. Oracle: once the deactivation has been answered 200, the stored
-// account is not valid.
+// wrapper; all 6 interleavings. Expected: exactly the table of the Lean theorem
+// account_update_interleavings (stored status, answer to A, answer to B).
 
 import (
 	"context"
@@ -112,8 +114,8 @@ func (w *world) acctRace(o *c.Out) {
 			impl = "final=" + st
 		}
 		impl += fmt.Sprintf(" deact=%s contact=%s", ths[0].class, ths[1].class)
-		// what the property demands: the deactivation answered 200 sticks; the contact update is
-		// either served before it or refused
+		// account_update_interleavings: the deactivation answered 200 sticks; the contact update
+		// is served if its UpdateAccount comes before the deactivation's, refused (401) otherwise
 		exp := map[string]string{
 			"AABB": "deactivated deact=200 contact=401:unauthorized",
 			"ABAB": "deactivated deact=200 contact=401:unauthorized",
